@@ -50,6 +50,9 @@ def run(ctx):
     ctx.cov["tlc_generated_cases"] = len(em)
     rng = random.Random(ctx.seed)
     em = V.stratified_sample(em, ctx.pick(6000, 10**9), rng)
+    # second family (computed items, both copies grown): small, replayed completely
+    r2 = ctx.tlc("MC_ScriptVM.tla", "MC_ScriptVM_alias2.cfg", workers=8, heap="6g")
+    em += sorted([o for o in r2["emitted"] if o.get("k") == "case" and o["st"] not in ("unmodelled", "toobig")], key=lambda o: (o["unlock"], o["lock"], o["genesis"]))
     cases = []
     for k, o in enumerate(em):
         fl = (A.FLAGBITS["UTXO_AFTER_GENESIS"] if o["genesis"] else 0) | (A.FLAGBITS["MINIMALDATA"] if o["md"] else 0) | \
